@@ -157,6 +157,9 @@ impl<V: Value> Memory<V> {
     /// the byte this memory itself holds at x
     pub open spec fn own(&self, x: u64) -> Option<u8> { own_at(self.endian, self.cells(), x) }
 
+    /// the own bytes as a map (address -> byte; absent = never stored)
+    pub open spec fn own_map(&self) -> IMap<u64, u8> { own_map_of(self.endian, self.cells()) }
+
     /// the layered content at x: own byte, else the backing's
     pub open spec fn full(&self, x: int) -> Option<u8> { full_at(self.endian, self.cells(), self.bk(), x) }
 
@@ -270,6 +273,8 @@ where
     ensures
         /*@backing*/ final(self).backing == backing,
         /*@frame*/ final(self).endian == old(self).endian && final(self).pages == old(self).pages,
+        /*@wf*/ old(self).wf() && (backing matches Some(b) ==> b.wf()) ==> final(self).wf(),
+        /*@own*/ forall|x: u64| #[trigger] final(self).own(x) == old(self).own(x),
 //@ end
 
 //@ fn impl<V> Memory<V> :: fn pages
